@@ -150,7 +150,7 @@ extern "C" fn ro_grow(this: *mut DiplomatWrite, want: usize) -> bool {
             false
         }
         _ => {
-            let ok = (env.orig_grow.unwrap())(this, want);
+            let ok = crate::alloctrack::scope(|| (env.orig_grow.unwrap())(this, want));
             let cap = unsafe { (*(this as *mut WriteMirror)).cap };
             env.grow_results.push(if ok { Some(cap) } else { None });
             ok
@@ -226,7 +226,8 @@ pub fn execute(kind: Kind, cap0: usize, hist: &[Op]) -> (RefModel, Option<String
             local = Some(unsafe { std::mem::transmute::<WriteMirror, DiplomatWrite>(m) });
         }
         Kind::RustOwned => {
-            let w = unsafe { diplomat_buffer_write_create(cap0) };
+            crate::alloctrack::begin();
+            let w = crate::alloctrack::scope(|| unsafe { diplomat_buffer_write_create(cap0) });
             let m = w as *mut WriteMirror;
             unsafe {
                 env!().orig_grow = Some((*m).grow);
@@ -408,9 +409,14 @@ pub fn execute(kind: Kind, cap0: usize, hist: &[Op]) -> (RefModel, Option<String
         unsafe {
             // restore the original grow before destroy (destroy does not call it, but be tidy)
             (*(w as *mut WriteMirror)).grow = env!().orig_grow.unwrap();
-            diplomat_buffer_write_destroy(w);
+            crate::alloctrack::scope(|| diplomat_buffer_write_destroy(w));
         }
         RO_ENV.with(|e| *e.borrow_mut() = None);
+        // every block the writer obtained is gone now, and each was released with the layout it was obtained with
+        let problems = crate::alloctrack::end();
+        if violation.is_none() && !problems.is_empty() {
+            violation = Some(format!("allocator: {}", problems.join("; ")));
+        }
     }
     drop(local);
     drop(unsafe { Box::from_raw(envp) });
@@ -431,7 +437,7 @@ impl Model for WriteModel {
     fn init_states(&self) -> Vec<St> {
         let mut v = vec![];
         for kind in [Kind::Caller, Kind::RustOwned, Kind::Fixed] {
-            for cap0 in 1..=self.max_cap {
+            for cap0 in (if kind == Kind::RustOwned { 0 } else { 1 })..=self.max_cap {
                 let mut model = RefModel { cap: cap0, ..Default::default() };
                 if kind == Kind::Fixed {
                     model.cap = cap0 - 1;
